@@ -153,9 +153,9 @@ def fuzz(build, workers, runs, corpus, dic, max_len=256, max_time=600, **kw):
 
 def plan_c05(tier, seed):
     if tier == "quick":
-        return (checks("main", 4, 20000) + checks("plain", 1, 2000) + shards("main", "sizes", 4)
+        return (checks("main", 4, 20000) + checks("plain", 1, 2000) + shards("main", "sizes", 4) + shards("complete_or_undefined", "deep", 2)
                 + fuzz("fuzz", 4, 400000, "corpus/C05", "dict/json.dict", max_time=60))
-    return (checks("main", 4, 300000) + checks("nohook_avx2", 1, 100000) + checks("plain", 1, 50000) + shards("main", "sizes", 4)
+    return (checks("main", 4, 300000) + checks("nohook_avx2", 1, 100000) + checks("plain", 1, 50000) + shards("main", "sizes", 4) + shards("complete_or_undefined", "deep", 4)
             + shards("nohook_avx2", "sizes", 2) + fuzz("fuzz", 10, 12000000, "corpus/C05", "dict/json.dict", max_len=512, max_time=900))
 
 
@@ -164,6 +164,8 @@ SPECS["C05"] = {
         "main": Build("main", "harness/c05_jsonsafe.cpp"),
         "nohook_avx2": Build("nohook_avx2", "harness/c05_jsonsafe.cpp", hook=False, simd="avx2"),
         "plain": Build("plain", "harness/c05_jsonsafe.cpp", san="plain", hook=False),
+        # "either a complete value or Undefined" for texts nested 250 .. 2000 levels: the deep enumeration of the all-or-nothing harness
+        "complete_or_undefined": Build("complete_or_undefined", "harness/c06_json.cpp", defs=["VERIF_C07"]),
         "fuzz": Build("fuzz", "harness/c05_jsonsafe.cpp", san="fuzz", defs=["VERIF_FUZZ"], link_rc=False),
     },
     "default_build": "main",
@@ -220,8 +222,8 @@ SPECS["C06"] = {
 
 def plan_c07(tier, seed):
     if tier == "quick":
-        return checks("main", 8, 8000)
-    return checks("main", 16, 40000)
+        return checks("main", 8, 8000) + shards("main", "deep", 4)
+    return checks("main", 16, 40000) + shards("main", "deep", 8)
 
 
 SPECS["C07"] = {
